@@ -46,10 +46,73 @@ func (g *fgen) ginvFormula(gi *ginv, st *state) string {
 		}
 	}
 	sort.Strings(ps)
-	if len(ps) == 0 {
-		return fmt.Sprintf("(forall ((%s Int)) (=> (< 0 %s) %s))", q, q, body)
+	guard := "(< 0 " + q + ")"
+	if len(g.ginvExempt) > 0 {
+		// objects under construction (allocated, not yet visible to anybody else)
+		parts := []string{guard}
+		for _, r := range g.ginvExempt {
+			parts = append(parts, fmt.Sprintf("(not (= %s %s))", q, r))
+		}
+		guard = "(and " + strings.Join(parts, " ") + ")"
 	}
-	return fmt.Sprintf("(forall ((%s Int)) (! (=> (< 0 %s) %s) %s))", q, q, body, strings.Join(ps, " "))
+	if len(ps) == 0 {
+		return fmt.Sprintf("(forall ((%s Int)) (=> %s %s))", q, guard, body)
+	}
+	return fmt.Sprintf("(forall ((%s Int)) (! (=> %s %s) %s))", q, guard, body, strings.Join(ps, " "))
+}
+
+// underConstruction: the struct objects allocated earlier in the call's block whose
+// address has not been used for anything but field addressing before the call, and is
+// not handed to the call.  Nobody but this function can see them yet, so the object
+// invariants checked and assumed around the call do not speak of them.
+func (g *fgen) underConstruction(in ssa.CallInstruction) []string {
+	var cands []*ssa.Alloc
+	for _, x := range in.Block().Instrs {
+		if x == ssa.Instruction(in) {
+			break
+		}
+		if a, ok := x.(*ssa.Alloc); ok {
+			if _, isS := isStructVal(a.Type().Underlying().(*types.Pointer).Elem()); isS {
+				cands = append(cands, a)
+			}
+			continue
+		}
+		for _, op := range x.Operands(nil) {
+			if op == nil || *op == nil {
+				continue
+			}
+			for i, a := range cands {
+				if a == nil || *op != ssa.Value(a) {
+					continue
+				}
+				switch y := x.(type) {
+				case *ssa.FieldAddr:
+					if y.X == ssa.Value(a) {
+						continue
+					}
+				case *ssa.DebugRef:
+					continue
+				}
+				cands[i] = nil // used for something else: may be visible
+			}
+		}
+	}
+	var out []string
+	for _, a := range cands {
+		if a == nil {
+			continue
+		}
+		used := false
+		for _, op := range in.Operands(nil) {
+			if op != nil && *op == ssa.Value(a) {
+				used = true
+			}
+		}
+		if v, ok := g.vals[a]; ok && !used {
+			out = append(out, v.t)
+		}
+	}
+	return out
 }
 
 // directStoreKeys: heap keys written by Store/MapUpdate instructions of fn itself.
